@@ -194,10 +194,13 @@ def _with_helpers(ctx, scope):
     for g in scope:
         for call, res in ctx.r.calls_in(g):
             for h in res.callees:
-                if h in scope or h.cls is not None and h.name == "__init__":
+                if h is g or (h.cls is not None and h.name == "__init__"):
                     continue
                 if any(isinstance(n, ast.Call) and _is_write_open(n) for n in walk_local(h.node)):
-                    bind.setdefault(h.key, []).append((g, call))
+                    # also for helpers that are in scope themselves (package-wide analysis): their path
+                    # parameter is classified through what the cache code passes for it
+                    if (g, call) not in bind.setdefault(h.key, []):
+                        bind[h.key].append((g, call))
                     if h not in out:
                         out.append(h)
     return out
